@@ -247,8 +247,8 @@ def parse_clafer(text):
                     ty = "boolean"
                 elif re.fullmatch(r"-?[0-9]+", lit):
                     ty = "integer"
-                elif re.fullmatch(r"-?[0-9]*\.[0-9]+([eE][-+]?[0-9]+)?|-?[0-9]+[eE][-+]?[0-9]+", lit):
-                    ty = "double"
+                elif re.fullmatch(r"-?[0-9]+\.[0-9]+(e-?[0-9]+)?", lit):
+                    ty = "double"         # Clafer's double literal: digits, a point, digits, an optional exponent without "+"
                 elif lit == "":
                     ty = ""
                 else:
@@ -289,6 +289,8 @@ def clafer_eval(n, sel):
     kids = n["kids"]
     cnt = sum(1 for k in kids if k["name"] in sel)
     g = n["group"]
+    if g == "0..*":
+        g = None        # Clafer's default group cardinality, also when written out: children are 1..1 unless marked "?"
     if g is not None:
         if g == "xor":
             lo, hi = 1, 1
@@ -576,7 +578,7 @@ def clafer_model(g, n):
             f["abstract"] = True       # an abstract feature is still selectable: it must stay an ordinary clafer
     anames = g.names(3, ("plain", "space", "nonascii"))
     # one value type per attribute name: the export declares every attribute once, with one type
-    pools = [[True, False], [3, -7, 0, 1], [1.5, 0.0, 1.0, -2.25], ["txt", "two words", "true", "1"], [None]]
+    pools = [[True, False], [3, -7, 0, 1], [1.5, 0.0, 1.0, -2.25, 1e16, 1e-05, 2.5e-07, 1e22, 123456789.125], ["txt", "two words", "true", "1"], [None]]
     pool_of = {an: rng.choice(pools) for an in anames}
     for f in feats:
         if rng.random() < 0.3:
